@@ -78,6 +78,7 @@ func runC18(c *Ctx) error {
 			}
 		}
 	}
+	headerLengthSweep(c) // the masked bit, the length forms and the key position of every client header
 	return c18Conn(c)
 }
 
